@@ -158,12 +158,22 @@ impl Stringify for Node {
     }
 }
 
+/// Escape plain text; a literal `{{` must not read back as the start of a binding.
+fn escape_text(s: &str) -> std::borrow::Cow<'_, str> {
+    let escaped = escape_html_body(s);
+    if escaped.contains("{{") {
+        std::borrow::Cow::Owned(escaped.replace("{{", "&#123;&#123;"))
+    } else {
+        escaped
+    }
+}
+
 fn is_children_empty(children: &[Node]) -> bool {
     for n in children {
         match n {
             Node::Comment(..) => {}
-            // (a text that is printed as nothing, like `{{ "" }}`, leaves no child behind either)
-            Node::Text(value) if is_empty_value(value) => {}
+            // (a text that is printed as nothing or as blanks, like `{{ "" }}` or `{{ " " }}`, reads back as no child)
+            Node::Text(value) if is_blank_value(value) => {}
             Node::Element(..) | Node::Text(..) | Node::UnknownMetaTag(..) => {
                 return false;
             }
@@ -178,6 +188,16 @@ fn is_empty_value(value: &Value) -> bool {
         // `{{ "" }}` is printed as empty text, which reads back as an empty static value
         Value::Dynamic { expression, .. } => {
             matches!(&**expression, Expression::LitStr { value, .. } if value.is_empty())
+        }
+    }
+}
+
+fn is_blank_value(value: &Value) -> bool {
+    let blank = |s: &str| s.chars().all(|c| matches!(c, ' ' | '\x09'..='\x0D'));
+    match value {
+        Value::Static { value, .. } => blank(value),
+        Value::Dynamic { expression, .. } => {
+            matches!(&**expression, Expression::LitStr { value, .. } if blank(value))
         }
     }
 }
@@ -714,7 +734,7 @@ impl Stringify for Value {
     fn stringify_write<'s, W: FmtWrite>(&self, stringifier: &mut Stringifier<'s, W>) -> FmtResult {
         match self {
             Self::Static { value, location } => {
-                let quoted = escape_html_body(&value);
+                let quoted = escape_text(&value);
                 stringifier.write_token(&format!("{}", quoted), None, &location)?;
             }
             Self::Dynamic {
@@ -730,7 +750,7 @@ impl Stringify for Value {
                 ) -> FmtResult {
                     match expr {
                         Expression::LitStr { value, location } => {
-                            stringifier.write_token(&escape_html_body(value), None, location)?;
+                            stringifier.write_token(&escape_text(value), None, location)?;
                             return Ok(());
                         }
                         Expression::ToStringWithoutUndefined { value, location } => {
@@ -744,17 +764,19 @@ impl Stringify for Value {
                             right,
                             location,
                         } => {
-                            let split = if let Expression::ToStringWithoutUndefined { .. }
-                            | Expression::LitStr { .. } = &**left
-                            {
-                                true
-                            } else if let Expression::ToStringWithoutUndefined { .. }
-                            | Expression::LitStr { .. } = &**right
-                            {
-                                true
-                            } else {
-                                false
-                            };
+                            // only a chain of text pieces and `{{ }}` pieces is a text mixture; `"s" + x` is an
+                            // ordinary addition (it yields "sundefined" where the mixture `s{{x}}` yields "s")
+                            fn is_piece(expr: &Expression) -> bool {
+                                match expr {
+                                    Expression::ToStringWithoutUndefined { .. }
+                                    | Expression::LitStr { .. } => true,
+                                    Expression::Plus { left, right, .. } => {
+                                        is_piece(left) && is_piece(right)
+                                    }
+                                    _ => false,
+                                }
+                            }
+                            let split = is_piece(left) && is_piece(right);
                             if split {
                                 split_expression(&left, stringifier, start_location, location)?;
                                 split_expression(&right, stringifier, location, end_location)?;
